@@ -22,7 +22,7 @@ From Coq Require Import List NArith ZArith Lia Bool.
 From Verif Require Import Base.Outcome Wire.Item Gen.Consts.
 From Verif Require Wire.Cbor Wire.Msgpack Wire.Simple Wire.Binc Wire.SimpleProofs Wire.SimpleDepth Wire.BincProofs.
 From Verif Require Wire.CborDepthFull Wire.SimpleDepthFull Wire.Json Wire.JsonDepth C14.JsonFull.
-From Verif Require Import C14.Bridge C14.Typed C14.TypedProofs.
+From Verif Require Import C14.Bridge C14.Typed C14.TypedProofs C14.TypedFull.
 Import ListNotations.
 
 (* ------------------------------ cbor ------------------------------ *)
@@ -186,6 +186,34 @@ Theorem C14_typed_error_partial : forall (md : Z) (k f : nat),
 Proof. exact typed_error_lemma. Qed.
 Print Assumptions C14_typed_error_partial.
 
+(* FULL, mirroring C14_msgpack_error: for EVERY type environment, destination type, MaxDepth, answer
+   stream of the driver (i.e. every input of every format) and fuel, the typed decode never returns Ok
+   when the stream nests MaxDepth levels or more.  The measure [nesting E f t a] (C14/TypedFull.v) does
+   not mention MaxDepth: it is the largest number of levels open at the same time while the grammar of
+   the destination type t reads the answer stream a with NO depth limit (same questions, same order,
+   same fuel as the model), a level being opened exactly where the code calls depthIncr: by a container
+   head that is not the stream nil (slice / array / map / struct; also the []interface{} / map a
+   DecodeNaked array or map is decoded into) and by a tag / extension met under an interface{}
+   destination; pointers, named types and the second frame of an interface{} open none. *)
+Theorem C14_typed_error : forall (E : env) (md : Z) (f : nat) (t : ty) (a rest : list N),
+  (Typed.maxdepth md <= nesting E f t a)%Z -> typed_decode E md f t a <> Ok rest.
+Proof. exact typed_error_full. Qed.
+Print Assumptions C14_typed_error.
+
+(* ... what it returns is the depth error (no other error can come first: the limited and the unlimited
+   reader walk the same path up to the refused depthIncr) ... *)
+Theorem C14_typed_refuse : forall (E : env) (md : Z) (f : nat) (t : ty) (a : list N),
+  (Typed.maxdepth md <= nesting E f t a)%Z -> typed_decode E md f t a = Err EDepth.
+Proof. exact typed_refuse_full. Qed.
+Print Assumptions C14_typed_refuse.
+
+(* ... and the boundary is exact: a stream nesting fewer than MaxDepth levels never meets a depth check
+   that fires; the decoder returns what the unlimited reader [typed_read] returns *)
+Theorem C14_typed_accept : forall (E : env) (md : Z) (f : nat) (t : ty) (a : list N),
+  (nesting E f t a < Typed.maxdepth md)%Z -> typed_decode E md f t a = typed_read E f t a.
+Proof. exact typed_accept_full. Qed.
+Print Assumptions C14_typed_accept.
+
 (* ------------------------------ non-vacuity ------------------------------ *)
 (* MaxDepth 3: two levels decode, three are refused, on both parsers of every format; the
    counters reach their bound on hostile input (4000 nested heads, default MaxDepth) *)
@@ -228,4 +256,20 @@ Example C14_typed_nonvacuous :
   typed_maxrec Lenv 0 (N.to_nat 20000%N) (TNamed 0) (nested (N.to_nat 3000%N)) = 1023%nat /\
   (* an interface{} destination fed arrays: two frames per level *)
   typed_maxrec Lenv 0 (N.to_nat 20000%N) TIface (concat (repeat [1; 1; 3]%N (N.to_nat 3000%N))) = 2047%nat.
+Proof. vm_compute. repeat apply conj; reflexivity. Qed.
+
+(* the nesting measure on concrete streams: {P: {P: {}}} into T opens 3 levels (refused by MaxDepth 3,
+   accepted by 4: C14_typed_nonvacuous); k nested one-element lists into type L []L open k levels; an
+   interface{} fed array-in-array-in-tag opens 3 levels (6 frames); a nil container head and pointers
+   open none; the unlimited reader consumes the whole stream *)
+Example C14_typed_error_nonvacuous :
+  nesting Tenv 100 (TNamed 0) [1; 3; 3; 1; 3; 3; 1; 2]%N = 3%Z /\
+  typed_read Tenv 100 (TNamed 0) [1; 3; 3; 1; 3; 3; 1; 2]%N = Ok [] /\
+  typed_decode Tenv 3 100 (TNamed 0) [1; 3; 3; 1; 3; 3; 1; 2]%N = Err EDepth /\
+  typed_decode Tenv 4 100 (TNamed 0) [1; 3; 3; 1; 3; 3; 1; 2]%N = Ok [] /\
+  nesting Lenv 100 (TNamed 0) (nested 7) = 7%Z /\
+  nesting Lenv (N.to_nat 20000%N) (TNamed 0) (nested (N.to_nat 3000%N)) = 3000%Z /\
+  nesting Lenv 100 TIface [1; 1; 3; 1; 1; 3; 1; 3; 1; 9]%N = 3%Z /\
+  typed_decode Lenv 3 100 TIface [1; 1; 3; 1; 1; 3; 1; 3; 1; 9]%N = Err EDepth /\
+  nesting Tenv 100 (TPtr (TPtr (TNamed 0))) [1; 0]%N = 0%Z.
 Proof. vm_compute. repeat apply conj; reflexivity. Qed.
